@@ -241,6 +241,16 @@ func (x *Exec) doCall(fr *frame, st *State, instr ssa.CallInstruction, c *ssa.Ca
 	}
 	x.callAsserts(fr, st, instr, c, false, nil, args)
 	outs := x.doCall1(fr, st, instr, c, args, depth)
+	if instr != nil {
+		for _, o := range outs {
+			if !o.panicked {
+				if o.st.callRes == nil {
+					o.st.callRes = map[ssa.CallInstruction][]smt.T{}
+				}
+				o.st.callRes[instr] = o.results
+			}
+		}
+	}
 	if x.contract != nil && len(x.contract.CallAsserts) > 0 {
 		for _, o := range outs {
 			if !o.panicked {
@@ -481,7 +491,9 @@ func isMethodContract(ct *gcl.Contract) bool { return !ct.FuncValue }
 
 func (x *Exec) applyContract(fr *frame, st *State, ct *gcl.Contract, sig *types.Signature, params []*ssa.Parameter, args []smt.T, iface bool, what string, c *ssa.CallCommon) []outcome {
 	env := x.calleeEnv(ct, sig, params, args, iface)
-	if ct.Trusted {
+	if ct.Assumed {
+		x.noteTrusted("UNVERIFIED contract of a repository function: " + shortName(what) + " (" + shortFile(ct.File) + ")")
+	} else if ct.Trusted {
 		x.noteTrusted("assumed contract: " + shortName(what) + " (" + shortFile(ct.File) + ")")
 	}
 	pre := st.clone()
@@ -557,15 +569,60 @@ func shortName(s string) string {
 }
 
 // ghostHeap returns name and sort of the heap of a ghost function: nested arrays indexed by its parameters.
-func (x *Exec) ghostHeap(g *gcl.Spec) (string, string) {
+// Parameters declared `any` take the sort of the actual argument (argSorts); the heap name is mangled accordingly.
+func (x *Exec) ghostHeap(g *gcl.Spec, argSorts []string) (string, string) {
+	name := "GH$" + g.Name
+	sorts := make([]string, len(g.Params))
+	for i, p := range g.Params {
+		if p[1] == "any" {
+			if i < len(argSorts) && argSorts[i] != "" {
+				sorts[i] = argSorts[i]
+			} else {
+				sorts[i] = smt.Int
+			}
+			name += "$" + sortTag(sorts[i])
+		} else {
+			sorts[i] = x.specSort(p[1])
+		}
+	}
 	sort := x.specSort(g.Ret)
 	for i := len(g.Params) - 1; i >= 0; i-- {
-		sort = smt.ArraySort(x.specSort(g.Params[i][1]), sort)
+		sort = smt.ArraySort(sorts[i], sort)
 	}
 	if len(g.Params) == 0 {
 		sort = smt.ArraySort(smt.Int, sort)
 	}
-	return x.regHeap("GH$"+g.Name, sort)
+	return x.regHeap(name, sort)
+}
+
+func (x *Exec) ghostPolyUnresolved(g *gcl.Spec, nArgs int) bool {
+	for i, p := range g.Params {
+		if p[1] == "any" && i >= nArgs {
+			return true
+		}
+	}
+	return false
+}
+
+// ghostVariants lists the registered heaps of a ghost whose `any` parameters are not determined by the designator.
+func (x *Exec) ghostVariants(g *gcl.Spec, nArgs int, argSorts []string) [][2]string {
+	poly := false
+	for i, p := range g.Params {
+		if p[1] == "any" && i >= nArgs {
+			poly = true
+		}
+	}
+	if !poly {
+		hn, hs := x.ghostHeap(g, argSorts)
+		return [][2]string{{hn, hs}}
+	}
+	var out [][2]string
+	for _, name := range smt.SortedKeys(x.heapSort) {
+		if strings.HasPrefix(name, "GH$"+g.Name+"$") {
+			out = append(out, [2]string{name, x.heapSort[name]})
+		}
+	}
+	return out
 }
 
 // havocLoc havocs one location designator of a modifies clause: g(obj[, k...]), x.f, x[*], x.*, *.
@@ -579,13 +636,19 @@ func (x *Exec) havocLoc(st *State, loc string, env map[string]binding, pkg strin
 	if i := strings.Index(loc, "("); i > 0 && strings.HasSuffix(loc, ")") { // ghost heap g(obj, ...)
 		gname := loc[:i]
 		if g, ok := x.P.Ghosts[gname]; ok {
-			hn, hs := x.ghostHeap(g)
 			inner := strings.TrimSpace(loc[i+1 : len(loc)-1])
 			if inner == "*" || inner == "" {
-				x.havocHeap(st, hn)
+				if x.ghostPolyUnresolved(g, 0) {
+					x.havocAll(st)
+					return
+				}
+				for _, v := range x.ghostVariants(g, 0, nil) {
+					x.havocHeap(st, v[0])
+				}
 				return
 			}
 			var idx []smt.T
+			var sorts []string
 			for _, a := range splitTopLevel(inner) {
 				t, err := x.evalExpr(mustParse(a), ectx)
 				if err != nil {
@@ -594,9 +657,16 @@ func (x *Exec) havocLoc(st *State, loc string, env map[string]binding, pkg strin
 					return
 				}
 				idx = append(idx, t)
+				sorts = append(sorts, t.Sort)
 			}
-			h := x.heap(st, hn, hs)
-			st.heaps[hn] = x.storeNested(h, idx, hs)
+			if x.ghostPolyUnresolved(g, len(idx)) {
+				x.havocAll(st)
+				return
+			}
+			for _, v := range x.ghostVariants(g, len(idx), sorts) {
+				h := x.heap(st, v[0], v[1])
+				st.heaps[v[0]] = x.storeNested(h, idx, v[1])
+			}
 			return
 		}
 	}
@@ -693,7 +763,16 @@ func (x *Exec) heapsOfModifies(ct *gcl.Contract, sig *types.Signature, iface boo
 		}
 		if i := strings.Index(loc, "("); i > 0 && strings.HasSuffix(loc, ")") {
 			if g, ok := x.P.Ghosts[loc[:i]]; ok {
-				hn, _ := x.ghostHeap(g)
+				poly := false
+				for _, p := range g.Params {
+					if p[1] == "any" {
+						poly = true
+					}
+				}
+				if poly {
+					return nil // instantiation not known statically: treat as everything
+				}
+				hn, _ := x.ghostHeap(g, nil)
 				hs = append(hs, hn)
 				continue
 			}
